@@ -304,6 +304,16 @@ def handle (line : String) : String :=
     let body := match cmd with
       | "settimeout" =>
         " " ++ " ".intercalate (((getD kv "s" "0").splitOn ",").filterMap fun t => t.toInt?.map fun v => s!"{v}:{specTimeoutNs v}")
+      | "scanseq" =>
+        -- one scanner, several scans; buffer 1 needs few fibers, buffer 2 more than the limit
+        let MAX := getNat kv "L" reMaxFibers
+        let needOf (w : String) : Nat := if w == "2" then getNat kv "need2" 0 else getNat kv "need1" 0
+        let seq := (getD kv "seq" "1").splitOn ","
+        let show1 (e : Option Err) : String := match e with | none => "OK" | some x => errName x
+        let fresh := fun (w : String) => show1 (reExec Guards.spec MAX (needOf w) ⟨0, 0, 0⟩).2
+        let outs := reExecSeq Guards.spec MAX ⟨0, 0, 0⟩ (seq.map needOf)
+        let steps := (outs.zipIdx.zip seq).map fun ((e, i), w) => s!"S{i + 1}={show1 e} S{i + 1}.same={if show1 e == fresh w then 1 else 0}"
+        s!" OK F1={fresh "1"} F2={fresh "2"} " ++ " ".intercalate steps ++ " sane=1"
       | "ml" => runMl kv
       | "fib" => runFib kv
       | "re" => runRe kv
